@@ -65,6 +65,18 @@ func VH_C07_batch() {
 		return res, err
 	}
 	b := bNode(&m.bMon, exec).WithMaxRetries(N)
+	if vParam("anyStyle", 0) > 0 && vNondet[bool]("anyStyleExecWithPartialValues") {
+		// the same exec installed Any-style through the builder; a failing attempt hands back a partial
+		// value next to its error — a failed attempt all the same
+		vCover("any-style-exec-with-partial-values")
+		b.WithExecFuncAny(func(ctx context.Context, v any) (any, error) {
+			res, err := exec(ctx, NewResult(v))
+			if err != nil {
+				return &vTok{id: 666}, err
+			}
+			return res.Value(), nil
+		})
+	}
 	if explicitContinue {
 		b.WithBatchErrorHandling(true)
 	}
